@@ -62,7 +62,11 @@ func cmdCallsCases(args []string) error {
 		}
 	}
 	if *stress > 0 {
-		if err := recsess.RunStress(b, dir, *seed, time.Duration(*stress)*time.Millisecond, rec); err != nil {
+		sb, err := abs.Build(recsess.StressSchema(), false)
+		if err != nil {
+			return err
+		}
+		if err := recsess.RunStress(sb, dir, *seed, time.Duration(*stress)*time.Millisecond, rec); err != nil {
 			return err
 		}
 	}
